@@ -17,6 +17,7 @@
 //   R <part> <slave hex>               storeLastData(part, slave)          (answer to the part built last; - = empty)
 //   T <seconds>                        advance the virtual clock
 //   D                                  decodeLastData(pt_any, false, nullptr, -1, OF_NONE)
+//   Q <name|-> <index|-1>              decodeLastData(pt_any, false, name, index, OF_NONE): one field read back
 //   E
 // output record: {"c":<J>,"load":[..],"n":<messages created>,"seen":[..],"ev":[..]}
 #include "vf.h"
@@ -190,6 +191,12 @@ static void runCase(const Case& c, vf::Out* out) {
       result_t r = cur->storeLastData(part, s);
       snprintf(b, sizeof b, "{\"o\":\"R\",\"rc\":%d}", static_cast<int>(r));
       ev = b;
+    } else if (tag == 'Q') {
+      std::string name; long idx = -1; is >> name >> idx;
+      std::ostringstream os;
+      result_t r = cur->decodeLastData(pt_any, false, name == "-" ? nullptr : name.c_str(), static_cast<ssize_t>(idx), OF_NONE, &os);
+      snprintf(b, sizeof b, "{\"o\":\"Q\",\"rc\":%d,\"txt\":", static_cast<int>(r));
+      ev = b + vf::jbytes(os.str()) + "}";
     } else if (tag == 'D') {
       std::ostringstream os;
       result_t r = cur->decodeLastData(pt_any, false, nullptr, -1, OF_NONE, &os);
